@@ -535,7 +535,7 @@ def _read_child_data(flat):
             iteration_raises=(Exception, asyncio.CancelledError),  # a failed / cancelled command ends the read
             at_entry=[("whole_table_is_walked", lambda _items: _items == list(range(0, 256)))],
             each=[
-                ("one_read_per_index", lambda idx, fx: commands(fx) == [("getChildData", {"index": idx})]),
+                ("one_read_per_index", lambda _item, fx: commands(fx) == [("getChildData", {"index": _item})]),
                 (
                     "child_entries_are_yielded_with_their_fields",
                     lambda fx: implies(
